@@ -137,3 +137,35 @@ func cmdPipeline(c *ctx) {
 }
 
 func init() { commands["pipeline"] = cmdPipeline }
+
+// c08corpus: hand-written valid programs that walk corners of the grammar (corpus/C08/*.wgsl, one `main` compute entry
+// point each); every stage and back end must accept them.
+func cmdC08Corpus(c *ctx) {
+	for _, f := range c.args {
+		b, err := os.ReadFile(f)
+		if err != nil {
+			continue
+		}
+		src := string(b)
+		c.line("src.txt", q(src))
+		mod, res := frontEnd(src)
+		if mod != nil {
+			_, r2 := backends(mod, "main")
+			res = append(res, r2...)
+		}
+		out := ""
+		for _, r := range res {
+			if r.err != "" {
+				out += fmt.Sprintf(" %s: %s;", r.stage, r.err)
+				c.count("reject-" + r.stage)
+			}
+		}
+		if out == "" {
+			out = "ok"
+			c.count("accepted")
+		}
+		c.line("impl.txt", out)
+	}
+}
+
+func init() { commands["c08corpus"] = cmdC08Corpus }
